@@ -407,7 +407,7 @@ func cmdCheck(args []string) int {
 		_ = allLemmaAx
 		return out
 	}
-	opt := solveOpts{timeout: 20, seed: seed, outDir: filepath.Join(*verif, "out", fmt.Sprintf("%s-%s-%d", ps.ID, *tier, os.Getpid())),
+	opt := solveOpts{timeout: 30, seed: seed, outDir: filepath.Join(*verif, "out", fmt.Sprintf("%s-%s-%d", ps.ID, *tier, os.Getpid())),
 		cacheDir: filepath.Join(*verif, ".cache"), useCache: true, workers: 5, replay: ps.Replay, replayMore: ps.ReplayMore, property: ps.ID}
 	if os.Getenv("VERIF_NOCACHE") != "" {
 		opt.useCache = false
